@@ -103,6 +103,10 @@ def check(case, brute=True, shared=None):
             req(not math.isnan(v), "join-nan", f"join score NaN for {p} -> {c}")
             if p["re"] == c["rs"] and p["qe"] == c["qs"]:
                 req(v == 0, "join-contiguous-not-zero", f"contiguous join scores {v} for {p} -> {c}")
+            # admissibility is the statement's, not the scorer's: a join is ruled out (minus infinity) exactly when the
+            # two segments overlap by more than half the shorter one on either map
+            req((v == -math.inf) == half_overlap(p, c), "minus-inf-rule",
+                f"join score {v} for {p} -> {c} but overlap by more than half the shorter one is {half_overlap(p, c)}")
             J[(i, j)] = v
         return J[(i, j)]
 
@@ -192,7 +196,7 @@ def seg_set(draw, maxn, big=False):
     distinct_keys = set()
     # coordinate unit: 10 bp grid, or single base pairs on a small span so that odd lengths and overlaps of exactly
     # half the shorter segment (+-1) are frequent (added after seeded change C14-4 was missed on the 10 bp grid)
-    u = draw(st.sampled_from([10, 10, 1, 1, 3]))
+    u = draw(st.sampled_from([10, 10, 1, 1, 3, 0.5]))       # 0.5: CMAP coordinates carry one decimal (C14-7 was missed on integers)
     if u == 1 and not big:
         span = draw(st.sampled_from([40, 400]))
     for _ in range(n):
@@ -270,7 +274,7 @@ def history_case(draw):
     return {"sets": [{"segments": x["segments"], "reverse": x["reverse"]} for x in sets], "mult": first["mult"], "ss": first["ss"]}
 
 
-def pair_grid(maxlen):
+def pair_grid(maxlen, unit=1):
     """every pair of segments on a 1 bp grid: lengths 0..maxlen on each map (0 on both or >0 on both), second segment
     starting from 2 bp after the first one's end down to its start - 1, independently on the two maps"""
     def gen(shard, nshards):
@@ -285,9 +289,9 @@ def pair_grid(maxlen):
                                 k += 1
                                 if k % nshards != shard:
                                     continue
-                                p = {"rs": 20, "re": 20 + lpr, "qs": 30, "qe": 30 + lpq, "score": 100000}
-                                c = {"rs": p["re"] - dr, "re": p["re"] - dr + lcr, "qs": p["qe"] - dq,
-                                     "qe": p["qe"] - dq + lcq, "score": 100000}
+                                p = {"rs": 20 * unit, "re": (20 + lpr) * unit, "qs": 30 * unit, "qe": (30 + lpq) * unit, "score": 100000}
+                                c = {"rs": p["re"] - dr * unit, "re": p["re"] + (lcr - dr) * unit, "qs": p["qe"] - dq * unit,
+                                     "qe": p["qe"] + (lcq - dq) * unit, "score": 100000}
                                 yield {"segments": [p, c], "reverse": rev, "ss": ss, "mult": mult}
     return gen
 
@@ -305,6 +309,8 @@ def subchecks(tier):
     subs = [
         Sub("pair-grid", "enum", check_pair, enumerate=pair_grid(5 if q else 7), exhaustive=True,
             describe=f"every pair of segments with lengths <= {5 if q else 7} bp and every overlap on a 1 bp grid, through chain()"),
+        Sub("pair-grid-half", "enum", check_pair, enumerate=pair_grid(4 if q else 6, unit=0.5), exhaustive=True,
+            describe=f"the same on a 0.5 bp grid (lengths <= {2 if q else 3} bp): fractional lengths and overlaps"),
         Sub("brute-force", "hyp", check, strategy=lambda: seg_set(8 if q else 12), examples=40000 if q else 400000,
             describe="every admissible sequence enumerated", shrink_budget=600,
             required_classes=("tied-keys", "reverse", "ss=1")),
